@@ -1689,6 +1689,21 @@ fn check_field_offsets(file: &File, scope: &Scope, schema: &Schema) -> Result<()
 
         for field in decl.fields() {
             match &field.desc {
+                // Optional fields are not bit-fields, even when their type
+                // is a scalar or an enum: they are octet aligned.
+                _ if field.cond.is_some() => {
+                    if offset % 8 != 0 {
+                        diagnostics.push(
+                            Diagnostic::error()
+                                .with_code(ErrorCode::InvalidFieldOffset)
+                                .with_message(format!(
+                                    "optional {} field is not aligned to an octet boundary",
+                                    field.kind()
+                                ))
+                                .with_labels(vec![field.loc.primary()]),
+                        )
+                    }
+                }
                 FieldDesc::Typedef { type_id, .. }
                     if matches!(
                         scope.typedef.get(type_id),
